@@ -42,6 +42,8 @@ LABELLED = [
     ("LoneAnonymousOperation", "{ count } query A { count }"),
     ("SingleFieldSubscriptions", "subscription { tick ping { name } }"),
     ("SingleFieldSubscriptions", "subscription { ...F } fragment F on Subscription { tick ping { name } }"),
+    ("SingleFieldSubscriptions", "subscription A { ...F } subscription B { ...F tick } fragment F on Subscription { ping { name } }"),
+    ("SingleFieldSubscriptions", "subscription B { ...F tick } subscription A { ...F } fragment F on Subscription { ping { name } }"),
     ("UniqueFragmentNames", "fragment F on Person { name } fragment F on Person { age } { me { ...F } }"),
     ("KnownTypeNames", "{ me { ... on Nope { name } } }"),
     ("KnownTypeNames", "query ($v: Nope) { count }"),
@@ -241,6 +243,14 @@ VALID_TRICKY = [
     # the same input field name at different nesting levels / in sibling literals is no duplicate
     "{ echo(f: {min: 1, sub: {min: 2, sub: {min: 3}}, tags: []}) }",
     "{ echo(f: {subs: [{min: 1}, {min: 1}], min: 1}) a: echo(f: {min: 1}) }",
+    # several subscriptions in one document reaching the same fragment: each operation is judged on its own
+    "subscription A { ...F } subscription B { ...F } fragment F on Subscription { tick }",
+    "subscription A { ...G } subscription B { ...G } subscription C { ...F } fragment G on Subscription { ...F } fragment F on Subscription { ping { name } }",
+    # identical arguments are identical in any order: the same field selected twice under one key, directly, through fragments and in sub-selections
+    "{ me { lim(a: 1, tags: \"x\") lim(tags: \"x\", a: 1) } }",
+    "{ me { lim(a: 1, tags: [\"x\"]) ...F } } fragment F on Person { lim(tags: [\"x\"], a: 1) }",
+    "query ($v: Int) { me { l: lim(a: $v, tags: null) ... { l: lim(tags: null, a: $v) } } }",
+    "{ me { friends(first: 1) { lim(a: 2, tags: \"y\") } } me { friends(first: 1) { lim(tags: \"y\", a: 2) } } }",
 ]
 
 
@@ -273,6 +283,20 @@ def transforms(doc, rnd):
         if isinstance(n, A.ObjectValue):
             n.fields.reverse()
     yield "reverse-selections-and-arguments", d
+    # ... and of every OTHER field / directive / object literal only, so that two occurrences of the same field end up with their (identical) arguments
+    # in different relative orders (reversing all of them at once keeps two equal lists equal)
+    d = copy.deepcopy(doc)
+    k = 0
+    for _p, n in walk(d):
+        if isinstance(n, (A.Field, A.Directive)) and len(n.arguments) > 1:
+            k += 1
+            if k % 2:
+                n.arguments.reverse()
+        if isinstance(n, A.ObjectValue) and len(n.fields) > 1:
+            k += 1
+            if k % 2:
+                n.fields.reverse()
+    yield "reverse-arguments-of-every-other-field", d
     d = copy.deepcopy(doc)
     plain_names = {n.name.value for _p, n in walk(d) if isinstance(n, A.Field) and n.alias is None}
     for _p, n in walk(d):
